@@ -3,14 +3,18 @@ import ChamVerif.Eval
 checks (in the compiler's visiting order) → rendering, with the error records the code produces. -/
 namespace ChamVerif
 
+/-- non-strict mode swallows `ExpressionError`s at compile time (they are raised when reached) -/
+def laxFilter (strict : Bool) (r : CRes Unit) : CRes Unit :=
+  match r with
+  | .error (.template cls msg tok) => if cls == "ExpressionError" && !strict then pure () else .error (.template cls msg tok)
+  | r => r
+
 /-- compile every expression an expression node holds (what `ExpressionTransform` does when
 the compiler reaches it); non-strict mode swallows `ExpressionError`s here -/
 def compileEN (tc : TCfg) (strict : Bool) : Nat → EN → CRes Unit
   | 0, _ => pure ()
   | f+1, e =>
-    let lax (r : CRes Unit) : CRes Unit := match r with
-      | .error (.template "ExpressionError" _ _) => if strict then r else pure ()
-      | r => r
+    let lax := laxFilter strict
     match e with
     | .value tok | .valueD tok _ | .subst tok _ _ _ | .boolean tok _ _ =>
       lax (do
@@ -145,6 +149,12 @@ def errorRecords (cfg : ECfg) (body : Str) (ex : Exc) (token : Option (Nat × Na
       [{ text := (body.drop pos).take len, line := l, col := c }]
     | none => []
 
+/-- the compiler's pass over the program: macros in definition order, then the template body -/
+def compileCheck (tc : TCfg) (strict : Bool) (fuel : Nat) (macros : List (Str × Node)) (node : Node) : CRes Unit := do
+  let tr ← macros.foldlM (fun tr (_, m) => checkNode tc strict fuel tr m) []
+  let _ ← checkNode tc strict fuel tr node
+  pure ()
+
 /-- `PageTemplate(src, …)(**vars)` -/
 def render (r : RenderReq) : Outcome :=
   let xml := isXmlDoc r.src && !r.textMode
@@ -162,11 +172,7 @@ def render (r : RenderReq) : Outcome :=
   | .error (.crash cls) => if cls.startsWith "unsupported" then .unsupported cls else .crash cls
   | .ok (node, macros) =>
     let fuel := 8 * body.length + 64
-    let chk : CRes Unit := do
-      let tr ← macros.foldlM (fun tr (_, m) => checkNode tc r.strict fuel tr m) []
-      let _ ← checkNode tc r.strict fuel tr node
-      pure ()
-    match chk with
+    match compileCheck tc r.strict fuel macros node with
     | .error (.template cls msg tok) =>
       let (l, c) := Tok.location body tok
       .templateError cls msg tok l c
@@ -175,7 +181,7 @@ def render (r : RenderReq) : Outcome :=
     | .ok () =>
       let cfg : ECfg := { tc := tc, tab := r.tab, pyBuiltins := r.pyBuiltins, talesExc := r.talesExc,
                           existsExc := r.existsExc, excParents := r.excParents, booleanAttrs := booleans,
-                          strict := r.strict, src := body }
+                          src := body }
       let env0 : Env := { own := r.vars ++ [(lit "repeat", .repeatDict), (lit "target_language", .none)],
                           root := [], rcontext := [], repeats := [], frames := [{}] }
       let init : RState := { streams := [[]], env := env0, x := {}, handled := 0 }
